@@ -27,7 +27,7 @@ def scenario_to_fuzz(sobj):
         hdr[1], hdr[2] = v >> 8, v & 255
     else:
         hdr[0] = 8
-        v = mtu - 576
+        v = min(mtu, 9216) - 576
         hdr[1], hdr[2] = v >> 8, v & 255
     out = bytes(hdr)
     for ln in sobj.lines:
